@@ -9,6 +9,7 @@
 package main
 
 import (
+	"time"
 	"bytes"
 	"encoding/json"
 	"fmt"
@@ -494,6 +495,14 @@ func main() {
 	if run.Thorough() {
 		phases = []phase{{"single-group", 1, 6, false}, {"two-groups-adjacent-ids", 2, 4, true}, {"three-groups", 3, 3, true}}
 	}
+	// internal deadline: a phase that runs out of time stops at a depth boundary or mid-depth and is reported as
+	// capped (exhaustive:false with the depth that was completed); it never alarms
+	budget := 150 * time.Second
+	if run.Thorough() {
+		budget = 30 * time.Minute
+	}
+	deadline := time.Now().Add(budget)
+	complete := true
 	states, transitions := 0, 0
 	outcomes := map[string]int{}
 	samples := &ev.Samples{N: 6}
@@ -517,6 +526,7 @@ func main() {
 		depthDone := 0
 		for dpt := 0; dpt < ph.depth && len(frontier) > 0; dpt++ {
 			var next [][]op
+			capped := false
 			jobs := make(chan []op, len(frontier))
 			for _, p := range frontier {
 				jobs <- p
@@ -528,6 +538,12 @@ func main() {
 				go func(db *badger.DB) {
 					defer wg.Done()
 					for path := range jobs {
+						if time.Now().After(deadline) {
+							mu.Lock()
+							capped = true
+							mu.Unlock()
+							continue
+						}
 						w, k, _ := build(db, ph.groups, path)
 						if k != "" {
 							continue
@@ -565,12 +581,19 @@ func main() {
 			// deterministic frontier order
 			sort.Slice(next, func(i, j int) bool { return fmt.Sprint(next[i]) < fmt.Sprint(next[j]) })
 			frontier = next
+			if capped {
+				complete = false
+				for _, d := range dbs {
+					d.DropAll()
+				}
+				break
+			}
 			depthDone = dpt + 1
 			for _, d := range dbs {
 				d.DropAll() // keep the DBs small
 			}
 		}
-		perPhase[ph.name] = map[string]interface{}{"states": phStates, "transitions": phTrans, "depth_completed": depthDone}
+		perPhase[ph.name] = map[string]interface{}{"states": phStates, "transitions": phTrans, "depth_completed": depthDone, "depth_target": ph.depth}
 		states += phStates
 		transitions += phTrans
 	}
@@ -589,7 +612,8 @@ func main() {
 		"per_phase":                     perPhase,
 		"outcome_classes":               outcomes,
 		"samples":                       samples.List(),
-		"exhaustive":                    true,
+		"exhaustive":                    complete,
+		"time_budget":                   budget.String(),
 	})
 }
 
